@@ -15,6 +15,8 @@ structure Cfg.Sound (c : Cfg) : Prop where
   ptr : c.pointerInit = .shares
   tmpl : c.tmplPkg ≠ c.bindPkg
   used : c.usedPkg = none ∨ c.usedPkg = some c.bindPkg
+  /-- what the checker resolved to a global is looked up as a global first -/
+  order : c.lookupOrder.head? = some .predefined
 
 /-- The store invariant; `ex` is a function literal whose `VarRefs` are being computed (its own
 entries are described by the loop invariant of `setRefs` instead). -/
@@ -56,7 +58,7 @@ theorem admitsAll_mono {s s' : Store} {p : Fn} (hk : s'.kind p = s.kind p)
   | .predef v :: us, h => by
     simp only [admitsAll, Bool.and_eq_true] at h ⊢
     exact ⟨admits_mono hk (hr v) h.1, admitsAll_mono hk hr us h.2⟩
-  | .loc :: us, h => by
+  | .loc _ :: us, h => by
     simp only [admitsAll] at h ⊢
     exact admitsAll_mono hk hr us h
 
@@ -182,6 +184,33 @@ theorem predefVarIndex_spec {c : Cfg} (hc : c.Sound) {ex : Option Fn} {s : Store
         simp [Store.setRef, hne]
 
 
+/-- with the predefined lookup first, `nonLocalVarIndex` is `predefVarIndex`: same-named closure or
+package variables are never consulted -/
+theorem nonLocalVarIndex_sound {c : Cfg} (hc : c.Sound) (s : Store) (f : Fn) (v : String) :
+    nonLocalVarIndex c s f v = predefVarIndex c s f v ⟨c.bindPkg, v⟩ := by
+  unfold nonLocalVarIndex
+  have h := hc.order
+  cases hl : c.lookupOrder with
+  | nil => simp [hl] at h
+  | cons a rest =>
+    simp only [hl, List.head?_cons, Option.some.injEq] at h
+    subst h
+    simp [nonLocalVarIndexFrom, hc.use v]
+
+/-- the invariant only reads `globals`, `gidx`, `ref` and `kind` -/
+theorem inv_congr {c : Cfg} {ex : Option Fn} {s s' : Store} (h1 : s'.globals = s.globals)
+    (h2 : s'.gidx = s.gidx) (h3 : s'.ref = s.ref) (h4 : s'.kind = s.kind) (hs : Inv c ex s) :
+    Inv c ex s' := by
+  refine ⟨by rw [h1, h2]; exact hs.g1, by rw [h1, h2]; exact hs.g2, ?_⟩
+  intro f v k hne hr
+  rw [h3] at hr
+  obtain ⟨a, g, b, d⟩ := hs.r f v k hne hr
+  exact ⟨by rw [h4]; exact a, g, by rw [h2]; exact b, by rw [← d]; exact resolve_kind (by rw [h4]) k⟩
+
+theorem admitsAll_congr {s s' : Store} (h3 : s'.ref = s.ref) (h4 : s'.kind = s.kind) (p : Fn)
+    (ups : List Upvar) (h : admitsAll s p ups = true) : admitsAll s' p ups = true :=
+  admitsAll_mono (by rw [h4]) (fun v k hk => by rw [h3]; exact hk) ups h
+
 theorem setRef_inv {c : Cfg} {f : Fn} {s : Store} (hs : Inv c (some f) s) (v : String) (i : Nat) :
     Inv c (some f) (s.setRef f v i) := by
   refine ⟨hs.g1, hs.g2, ?_⟩
@@ -203,15 +232,17 @@ theorem setRefs_spec {c : Cfg} (hc : c.Sound) {p f : Fn} (hpf : p ≠ f) :
   | [], i, s, hs, _ => by
     intro r
     exact ⟨hs, rfl, fun _ _ h => h, fun _ _ h => Or.inl h⟩
-  | .loc :: us, i, s, hs, ha => by
+  | .loc name :: us, i, s, hs, ha => by
     intro r
     simp only [admitsAll] at ha
-    obtain ⟨h1, h2, h3, h4⟩ := setRefs_spec hc hpf us (i + 1) s hs ha
+    obtain ⟨h1, h2, h3, h4⟩ := setRefs_spec hc hpf us (i + 1)
+      { s with closureVar := fun f' n => if f' = f ∧ n = name then some i else s.closureVar f' n }
+      (inv_congr rfl rfl rfl rfl hs) (admitsAll_congr rfl rfl p us ha)
     refine ⟨h1, h2, h3, ?_⟩
     intro v k hk
     rcases h4 v k hk with h | ⟨hle, q, g, hq, hg, hres⟩
     · exact Or.inl h
-    · refine Or.inr ⟨by omega, q, g, ?_, hg, hres⟩
+    · refine Or.inr ⟨by omega, q, g, ?_, hg, by rw [← hres]; exact resolve_kind rfl q⟩
       have : k - i = (k - (i + 1)) + 1 := by omega
       simp only [r, setRefs, this, List.getElem?_cons_succ]
       exact hq
@@ -272,7 +303,7 @@ theorem inv_weaken {c : Cfg} {s : Store} (hs : Inv c none s) (f : Fn) : Inv c (s
 theorem step_inv {c : Cfg} (hc : c.Sound) {s s' : Store} (hs : Inv c none s) (e : Event)
     (h : step c s e = some s') : Inv c none s' := by
   cases e with
-  | declFunc f =>
+  | declFunc f pkg =>
     simp only [step] at h
     cases hk : s.kind f with
     | some kd => simp [hk] at h
@@ -293,7 +324,7 @@ theorem step_inv {c : Cfg} (hc : c.Sound) {s s' : Store} (hs : Inv c none s) (e 
     · rename_i ha
       cases h
       have := predefVarIndex_spec hc hs (f := f) (v := v) (by simp) ha
-      rw [hc.use v]
+      rw [nonLocalVarIndex_sound hc]
       exact this.1
     · cases h
   | closure p f ups =>
@@ -330,7 +361,11 @@ theorem step_inv {c : Cfg} (hc : c.Sound) {s s' : Store} (hs : Inv c none s) (e 
           rw [← k3]
           exact resolve_kind (by simp [hff]) k
       · cases h
-  | pkgVar x =>
+  | bindImport t k x =>
+    simp only [step, Option.some.injEq] at h
+    subst h
+    exact inv_congr rfl rfl rfl rfl hs
+  | pkgVar k x =>
     simp only [step, Option.some.injEq] at h
     subst h
     refine ⟨?_, ?_, ?_⟩
@@ -568,9 +603,11 @@ theorem setRefs_seen {c : Cfg} (hc : c.Sound) {p f : Fn} (hpf : p ≠ f) :
     ∀ u, ((setRefs c p f ups i s).2.gidx u).isSome = true ↔
       ((s.gidx u).isSome = true ∨ u ∈ predefs ups)
   | [], i, s, _, _, u => by simp [setRefs, predefs]
-  | .loc :: us, i, s, hs, ha, u => by
+  | .loc name :: us, i, s, hs, ha, u => by
     simp only [admitsAll] at ha
-    have := setRefs_seen hc hpf us (i + 1) s hs ha u
+    have := setRefs_seen hc hpf us (i + 1)
+      { s with closureVar := fun f' n => if f' = f ∧ n = name then some i else s.closureVar f' n }
+      (inv_congr rfl rfl rfl rfl hs) (admitsAll_congr rfl rfl p us ha) u
     simpa [setRefs, predefs] using this
   | .predef v :: us, i, s, hs, ha, u => by
     simp only [admitsAll, Bool.and_eq_true] at ha
@@ -605,7 +642,7 @@ theorem step_seen {c : Cfg} (hc : c.Sound) {s s' : Store} (hs : Inv c none s) (e
     (h : step c s e = some s') (u : String) :
     (s'.gidx u).isSome = true ↔ ((s.gidx u).isSome = true ∨ u ∈ Spec.referenced [e]) := by
   cases e with
-  | declFunc f =>
+  | declFunc f pkg =>
     simp only [step] at h
     cases hk : s.kind f with
     | some kd => simp [hk] at h
@@ -617,7 +654,7 @@ theorem step_seen {c : Cfg} (hc : c.Sound) {s s' : Store} (hs : Inv c none s) (e
     simp only [step] at h
     split at h
     · cases h
-      rw [hc.use v, predefVarIndex_seen hc hs (by simp) u]
+      rw [nonLocalVarIndex_sound hc, predefVarIndex_seen hc hs (by simp) u]
       simp [Spec.referenced]
     · cases h
   | closure p f ups =>
@@ -635,7 +672,11 @@ theorem step_seen {c : Cfg} (hc : c.Sound) {s s' : Store} (hs : Inv c none s) (e
         have := setRefs_seen hc hpf ups 0 s (inv_weaken hs f) ha.2 u
         simpa [Spec.referenced] using this
       · cases h
-  | pkgVar x =>
+  | bindImport t k x =>
+    simp only [step, Option.some.injEq] at h
+    subst h
+    simp [Spec.referenced]
+  | pkgVar k x =>
     simp only [step, Option.some.injEq] at h
     subst h
     simp [Spec.referenced]
